@@ -292,6 +292,77 @@ fn many_records_workload(rng: &mut Rng, tier: Tier) -> Workload {
     w
 }
 
+/// Integer literals between 1 000 and 1 100 000 in the program's definitions (the text in front of
+/// `(dynamic-wind`), outside strings and symbols, that do not occur in the expression.
+pub fn definition_thresholds(program: &str, expr: &str) -> Vec<u64> {
+    let defs = &program[..program.find("(dynamic-wind").unwrap_or(0)];
+    let cs: Vec<char> = defs.chars().collect();
+    let mut out = vec![];
+    let mut i = 0;
+    while i < cs.len() {
+        match cs[i] {
+            '"' => {
+                i += 1;
+                while i < cs.len() && cs[i] != '"' {
+                    i += if cs[i] == '\\' { 2 } else { 1 };
+                }
+                i += 1;
+            }
+            '#' if cs.get(i + 1) == Some(&'\\') => {
+                // a character literal: #\x1e, #\a, #\(
+                i += 3;
+                while i < cs.len() && cs[i].is_alphanumeric() {
+                    i += 1;
+                }
+            }
+            c if c.is_ascii_digit() && (i == 0 || matches!(cs[i - 1], ' ' | '(' | '\n' | '\t')) => {
+                let start = i;
+                while i < cs.len() && cs[i].is_ascii_digit() {
+                    i += 1;
+                }
+                if i == cs.len() || matches!(cs[i], ' ' | ')' | '\n' | '\t') {
+                    let text: String = cs[start..i].iter().collect();
+                    if let Ok(n) = text.parse::<u64>() {
+                        if (1_000..=1_100_000).contains(&n) && !expr.contains(&text) && !out.contains(&n) {
+                            out.push(n);
+                        }
+                    }
+                }
+            }
+            _ => i += 1,
+        }
+    }
+    out.sort();
+    out
+}
+
+/// The workload `w` over a scan of a little more than `n` files on two threads.
+fn threshold_workload(w: &Workload, n: u64, rng: &mut Rng) -> Workload {
+    let mut t = w.clone();
+    let n_files = n as usize + 1 + rng.usize_below(64);
+    t.files = (0..n_files)
+        .map(|i| {
+            let mut f = gen_file(rng, i % 4096, 8);
+            f.rel_path = format!("d{}/file{i}", i % 97);
+            f.abs_path = format!("/mnt/lustre/{}", f.rel_path);
+            f.name = format!("file{i}");
+            f.xattrs.clear();
+            f
+        })
+        .collect();
+    t.threads = 2;
+    t.partition = vec![vec![]; 2];
+    for f in 0..n_files {
+        t.partition[rng.usize_below(2)].push(f);
+    }
+    t.dynamic_assignment = false;
+    t.max_chunks = 1;
+    t.buffer_cap = *rng.pick(&[Some(4096), Some(4096), Some(1024), None]);
+    t.stall_large_writes = None;
+    t.probe = w.probe;
+    t
+}
+
 pub fn workload(rng: &mut Rng, tier: Tier) -> Workload {
     if rng.chance(1, 4_000) {
         return many_records_workload(rng, tier);
@@ -1180,6 +1251,22 @@ pub fn run_block(seed: u64, first: u64, count: u64, tier: Tier) -> Result<BlockR
                 break;
             }
         };
+        // A number in the program's DEFINITIONS that the expression does not contain is a threshold the
+        // generated code set itself ("every 65536 lines", "every millionth inode"): one run index in 150 runs such a program over a scan long
+        // enough to cross it, instead of its small workload (a function of the index alone, so
+        // that the partition into blocks does not matter).
+        let (mut w, mut prep) = (w, prep);
+        if index % 150 == 16 {
+            if let Some(n) = definition_thresholds(&prep.program, &w.expr).into_iter().next() {
+                let wt = threshold_workload(&w, n, &mut rng);
+                if let Prep::Ready(pt) = prepare(&wt) {
+                    br.bump("threshold_workloads", 1);
+                    br.counters.entry("largest_threshold_crossed".into()).and_modify(|v| *v = (*v).max(n)).or_insert(n);
+                    w = wt;
+                    prep = pt;
+                }
+            }
+        }
         digest.push(hash_str(&prep.program));
         br.bump("programs", 1);
         br.bump(if prep.io_keys.is_some() { "programs_framed" } else { "programs_plain" }, 1);
